@@ -200,6 +200,7 @@ func (p *Program) newInterp(cfg *HarnessConfig, ex *explorer, kind SolverKind, v
 		funcSteps: map[*ssa.Function]int64{},
 		mainPkg:   p.Main,
 		extCache:  map[*ssa.Function]externalFn{},
+		cutNotes:  map[string]bool{},
 		verbose:   verbose,
 		tracing:   os.Getenv("SYMGO_TRACE") != "",
 	}
@@ -400,6 +401,9 @@ func (p *Program) RunHarness(name string, cfg HarnessConfig, kind SolverKind, ve
 			rep.ModelTime += i.solver.Stats.ModelTime
 			for _, m := range i.inconclusive {
 				rep.Inconclusive = appendUnique(rep.Inconclusive, m)
+			}
+			for m := range i.cutNotes {
+				rep.BoundsNotes = appendUnique(rep.BoundsNotes, "deliberate cut: "+m)
 			}
 			for f, n := range i.funcSteps {
 				rep.Funcs[f.String()] += n
